@@ -106,11 +106,15 @@ impl Runner {
         self.cases += 1;
         let order: Vec<usize> = if self.cases % 2 == 0 { (0..NSLOTS).collect() } else { (0..NSLOTS).rev().collect() };
         let v = self.ex.end_of_history(&mut self.pool, &order);
+        let (v, _) = self.ex.filter(v, "end of case");
         if !v.is_empty() {
             self.report(v, case);
             Explorer::abandon(&mut self.pool);
         }
         self.log.clear();
+    }
+    pub fn set_decides(&mut self, a: &Args) {
+        self.ex.decides = stat_props(a);
     }
     pub fn announce(&self, a: &Args, case: &str) {
         if a.flag("announce") {
@@ -151,6 +155,7 @@ impl Runner {
                 .n("violations", self.nviol)
                 .n("swallowed_hint_failures", self.ex.swallowed_ok)
                 .raw("cov", crate::cov_json(&self.ex.cov, &stat_props(a), a.flag("announce")))
+                .raw("cross", crate::cross_json(&self.ex))
                 .raw("ecov", ec.render())
                 .render(),
         );
@@ -313,6 +318,7 @@ pub fn engine_faults(a: &Args) {
     let profiles = [Profile::Sharing, Profile::Default, Profile::Static, Profile::ErrorPath, Profile::Shrink];
     let mut ex = Explorer::new();
     ex.cmp_every = 0;
+    ex.decides = stat_props(a);
     let mut runs = 0u64;
     let mut requests = 0u64;
     let mut nviol = 0u64;
@@ -329,6 +335,7 @@ pub fn engine_faults(a: &Args) {
         // clean run: count the crate's requests
         let mut clean = Explorer::new();
         clean.cmp_every = 0;
+        clean.decides = stat_props(a);
         let (v0, ctx0, n) = clean.run_history(seed, h, profile, steps, Some((0, 0)));
         for v in &v0 {
             let c = per_monitor.entry((v.prop, v.monitor)).or_insert(0);
@@ -403,6 +410,7 @@ pub fn engine_faults(a: &Args) {
             .n("violations", nviol)
             .n("swallowed_hint_failures", ex.swallowed_ok)
             .raw("cov", crate::cov_json(&ex.cov, &stat_props(a), a.flag("announce")))
+            .raw("cross", crate::cross_json(&ex))
             .raw("ecov", ec.render())
             .render(),
     );
@@ -416,6 +424,7 @@ pub fn engine_sizes(a: &Args) {
     let seed = a.num("seed", 1);
     let mut r = Rng::new(seed);
     let mut rn = Runner::new("sizes", seed);
+    rn.set_decides(a);
     let table = size_table();
     let stride = a.num("stride", 1) as usize;
     let offset = (seed as usize) % stride.max(1);
@@ -506,6 +515,7 @@ pub fn engine_indices(a: &Args) {
     let seed = a.num("seed", 1);
     let mut r = Rng::new(seed);
     let mut rn = Runner::new("indices", seed);
+    rn.set_decides(a);
     let max_chars = a.num("max-chars", 6) as usize;
     let sample_pct = a.num("sample-pct", 100) as usize;
     let texts = index_texts(max_chars);
@@ -598,6 +608,7 @@ pub fn engine_panics(a: &Args) {
     let seed = a.num("seed", 1);
     let mut r = Rng::new(seed);
     let mut rn = Runner::new("panics", seed);
+    rn.set_decides(a);
     let rounds = a.num("rounds", 3);
     let mut with_heap = 0u64;
     let mut shard = Shard::new(a);
@@ -681,6 +692,7 @@ pub fn engine_clones(a: &Args) {
     let seed = a.num("seed", 1);
     let mut r = Rng::new(seed);
     let mut rn = Runner::new("clones", seed);
+    rn.set_decides(a);
     let max_len = a.num("max-big-len", 16 << 20) as usize;
     let mut lens: Vec<usize> = (0..=40).collect();
     lens.extend([63, 64, 65, 1 << 10, 1 << 16, 1 << 20, 16 << 20].iter().filter(|&&l| l <= max_len));
@@ -779,6 +791,7 @@ pub fn engine_construct(a: &Args) {
     let seed = a.num("seed", 1);
     let mut r = Rng::new(seed);
     let mut rn = Runner::new("construct", seed);
+    rn.set_decides(a);
     let reps = a.num("reps", 4);
     let mk_ops = |t: usize, s: &String| -> Vec<Op> {
         vec![
@@ -954,6 +967,7 @@ pub fn engine_growth(a: &Args) {
     let seed = a.num("seed", 1);
     let mut r = Rng::new(seed);
     let mut rn = Runner::new("growth", seed);
+    rn.set_decides(a);
     let max_n = a.num("max-n", 4_000_000) as usize;
     let mut shard = Shard::new(a);
     // (a) growth events with chosen (L, a)
@@ -1073,6 +1087,7 @@ pub fn engine_shrink(a: &Args) {
     let seed = a.num("seed", 1);
     let mut r = Rng::new(seed);
     let mut rn = Runner::new("shrink", seed);
+    rn.set_decides(a);
     let table = size_table();
     let lens = [0usize, 1, 5, 15, 16, 17, 18, 30, 100, 333];
     let caps_rel = [0usize, 1, 2, 10, 20, 100, 900];
@@ -1141,6 +1156,7 @@ pub fn engine_eqclass(a: &Args) {
     let seed = a.num("seed", 1);
     let mut r = Rng::new(seed);
     let mut rn = Runner::new("eqclass", seed);
+    rn.set_decides(a);
     rn.ex.cmp_every = 1;
     let rounds = a.num("rounds", 200);
     for round in 0..rounds {
